@@ -126,6 +126,9 @@ LONG_REQS = [
     b"gemini://example.org/" + b"a" * 1002 + b"\r\n",          # 1025
     b"gemini://example.org/" + b"a" * 1100,                     # oversize, no CRLF
     b"titan://example.org/" + b"a" * 994 + b";size=2\r\nhi",    # 1024-byte titan line + content
+    b"x" * 1100 + b"titan://example.org/late.gmi;size=4\r\nDATA",          # over-long junk, then a well-formed upload
+    b"gemini://example.org/" + b"a" * 1100 + b"gemini://example.org/second\r\n",  # over-long line, then a well-formed request
+    b"gemini://example.org/" + b"a" * 1001 + b"\r\n",              # the longest legal line (1022 + CRLF), cut at CR|LF too
 ]
 
 
@@ -149,7 +152,9 @@ def enum_cuts12(tier):
             # long requests: all single cuts, and pairs drawn from an interesting subset
             interesting = sorted(set([1, 2, 8, 9, 10, n - 1, n - 2, n - 3] + [p for p in pos if p % 97 == 0]
                                      + list(range(1018, min(n, 1030)))
-                                     + [i for i in pos if data[i - 1:i] in (b"\r", b"\n", b";")]))
+                                     + [i for i in pos if data[i - 1:i] in (b"\r", b"\n", b";")]
+                                     + [i for i in pos if data[i:i + 9] == b"gemini://" or data[i:i + 8] == b"titan://"]
+                                     + [i for i in pos if data[i:i + 1] in (b"\r", b"\n")]))
             interesting = [p for p in interesting if 0 < p < n]
             singles = pos if tier == "thorough" else pos[::7] + interesting
             pairs = list(itertools.combinations(interesting, 2))
